@@ -5,6 +5,7 @@ import numpy as np
 import core, gen
 from core import da, Axis, DimArray
 from .base import Prop
+from . import c08red
 
 FNS = ["sum", "prod", "mean", "var", "std", "min", "max", "ptp", "all", "any", "median"]
 ROUND = {"mean", "var", "std", "sum", "prod", "median"}
@@ -184,7 +185,10 @@ class C08(Prop):
     theorems = ["reduce_axes_spec", "fibre_get", "fibre_length", "dealWithAxis_name_pos", "reduce_none_scalar",
                 "reduce_tuple_eq_flatten", "getFunc_table_policy", "getFunc_table_covers", "reduce_none_row_major", "reduce_rank1_scalar", "dealWithAxis_pos_spec", "reduce_name_spec", "reduce_commute_transpose", "reduce_tuple_cells",
                 "percentile_spec", "percentile_scalar_spec", "percentile_tuple_spec", "percentile_rank1_spec", "percentile_none_scalar",
-                "percentile_refuses", "quantile_spec"]
+                "percentile_refuses", "quantile_spec",
+                "red_plain_nan", "red_skipna_eq_plain_filter", "red_skipna_all_nan", "red_empty_fibre", "red_skipna_no_nan",
+                "red_inf_not_missing", "sum_perm", "cumsum_last_eq_sum", "argmin_spec", "argmax_spec",
+                "nanargmin_inf_counterexample", "reduceX_name_spec"]
     rule = ("float/int/bool arrays of rank 1-4, sizes 1-4, NaN patterns none / some / whole fibre / all, metadata on the "
             "array and on (some of) its axes; every reduction (sum prod mean var std min max ptp all any median) x axis by "
             "name / position / negative position / tuple or list of names, positions, negative positions or a mix, in any "
@@ -193,9 +197,20 @@ class C08(Prop):
             "by name / position / default / None / tuple, with and without newaxis= (compared cell by cell with the mirror "
             "Lib.percentile: symbolic cells `redp q fibre`), plus a stratum of float percentile lists and of "
             "lib.stats.quantile with dyadic levels. The (function, skipna) -> NumPy "
-            "family table of _get_func is tabulated from the implementation on every run. Non-trivial = rank >= 2 or "
+            "family table of _get_func is tabulated from the implementation on every run. Stratum redx (concrete fibre "
+            "semantics): float arrays of rank 1-3, sizes 0-4, cells small integers / dyadic rationals / 0-1 with NaN, +inf, "
+            "-inf sprinkled (none / one / several / a whole fibre / all); sum prod mean min max ptp all any median var "
+            "argmin argmax cumsum cumprod x skipna x axis by name / position / negative position / tuple / None: the driver "
+            "evaluates the concrete model Lib/Reduce.lean (selectRed / selectScan through reduceX / cumAxis) and returns exact "
+            "cells (rational, nan, inf, -inf) or the error class, compared cell by cell with the implementation (NaN "
+            "positions, infinities and error classes exactly); oracle from the statement: the skipna result is NumPy's plain "
+            "function on the fibre without its NaNs (corner values when nothing is left). Non-trivial = rank >= 2 or "
             "NaNs present; distinct = canonical JSON")
-    assumptions = ["what a NumPy reduction computes on a 1-D fibre is NumPy's; sum/prod/mean/var/std/median compared after rounding to 12 significant digits"]
+    assumptions = ["what a NumPy reduction computes on a 1-D fibre is NumPy's; sum/prod/mean/var/std/median compared after rounding to 12 significant digits",
+                   "stratum redx: rounding is not modelled - a model value that is exactly a float64 must be returned exactly "
+                   "(var excepted: two rounding passes), any other within 1e-12 relative; std (needs a square root) is not in the concrete model",
+                   "stratum redx: a rank-0 DimArray (what the masked-array switcher returns for ptp/all/any of an all-NaN 1-D array) is observed as a scalar",
+                   "stratum redx: argmin/argmax(skipna=True) of a fibre whose non-NaN cells are all +inf / -inf behind a NaN: the reference is NumPy's nanargmin / nanargmax itself (it replaces NaN by +inf and returns the NaN's position; mirrored, `nanargmin_inf_counterexample`)"]
 
     def mirrors(self):
         import sys as _s
@@ -332,6 +347,9 @@ class C08(Prop):
             yield {"op": "reduce", "array": arr, "fn": fn, "axis": ax, "skipna": skipna, "spell": self.spelling(rng, ax, skipna)}
         for c in self.gen_stats_extra(rng, tier):
             yield c
+        # concrete fibre semantics (NaN / inf / empty fibres) against the concrete model Lib/Reduce.lean
+        for c in c08red.gen_cases(self, rng, tier):
+            yield c
 
     def gen_stats_extra(self, rng, tier):
         """further forms of lib.stats, generated after the main stream: percentile with float / mixed lists of levels,
@@ -394,6 +412,8 @@ class C08(Prop):
 
     # ------------------------------------------------------------ implementation side
     def impl(self, c):
+        if c["op"] == "redx":
+            return c08red.impl(c)
         toks = core.AttrTokens()
         a = core.build_array(c["array"], 0)
         before = core.obs_array(a, toks)
@@ -445,6 +465,8 @@ class C08(Prop):
         return out
 
     def request(self, c):
+        if c["op"] == "redx":
+            return c08red.request(c)
         toks = core.AttrTokens()
         arr = core.lean_array(gen.clean(c["array"]), toks)
         if c["op"] in ("percentile", "quantile"):
@@ -467,6 +489,8 @@ class C08(Prop):
         return [f(row) for row in rows], keep
 
     def judge(self, c, io, ans):
+        if c["op"] == "redx":
+            return c08red.judge(self, c, io, ans)
         lean = ans["lib"]
         bad, prop_bad = [], []
         a = core.build_array(c["array"], 0)
@@ -643,9 +667,13 @@ class C08(Prop):
         return (rows, keep) if with_keep else rows
 
     def nontrivial(self, c):
+        if c["op"] == "redx":
+            return len(c["xvals"]) >= 2
         return len(c["array"]["axes"]) >= 2 or bool(c["array"].get("nan_at"))
 
     def features(self, c, io):
+        if c["op"] == "redx":
+            return c08red.features(c, io)
         ax = c["axis"]
         f = {"outcome": "err:" + io["err"] if "err" in io else "ok", "op": c["op"], "fn": c.get("fn"), "skipna": c.get("skipna"),
              "rank": len(c["array"]["axes"]), "vkind": c["array"]["vkind"], "nan": bool(c["array"].get("nan_at")),
